@@ -336,6 +336,33 @@ func nsGenWorld(rt *rapid.T, s *nsSim, o nsWorldOpts) *nsWorld {
 	return w
 }
 
+// addGhost adds an honest identity of the world's CA that no node runs: the harness plays it with
+// handshake Machines of its own (production credentials from newCertState), which lets it choose
+// what a real node never lets anybody choose, e.g. its tunnel index. Returns the spec index.
+func (w *nsWorld) addGhost(rt *rapid.T) (int, *CertState) {
+	gi := len(w.specs)
+	now := time.Now()
+	sp := &nsNodeSpec{name: "ghost", role: nsHost, kind: nsHonest, udp: nsUnderlay(gi), claims: -1, poses: -1,
+		versions: []cert.Version{cert.Version2}, nets: []netip.Prefix{nsOverlayAddr(gi)}}
+	id := nsNewIdent(w.cas[0], sp.name, sp.versions, sp.nets, nil, []string{"gghost"}, now.Add(-time.Hour), now.Add(500*time.Hour))
+	for _, c := range id.certs {
+		fp, _ := c.Fingerprint()
+		w.byFP[fp] = gi
+	}
+	raw, _, curve, err := cert.UnmarshalPrivateKeyFromPEM([]byte(id.keyPEM))
+	if err != nil {
+		rt.Fatalf("harness: ghost key: %v", err)
+	}
+	cs, err := newCertState(cert.Version2, nil, id.certs[0], false, curve, raw, "aes")
+	if err != nil {
+		rt.Fatalf("harness: ghost cert state: %v", err)
+	}
+	w.specs = append(w.specs, sp)
+	w.nodes = append(w.nodes, nil)
+	w.tunSeen = append(w.tunSeen, 0)
+	return gi, cs
+}
+
 func (w *nsWorld) startAll(rt *rapid.T) {
 	for _, n := range w.nodes {
 		if n == nil {
